@@ -10,7 +10,7 @@
 
 static size_t LIM;
 
-enum { NBUILDERS = 44 };
+enum { NBUILDERS = 46 };
 static const char* const builder_names[NBUILDERS] = {
     "new_int8", "new_int16", "new_int32", "new_int64", "build_uint8", "build_uint16", "build_uint32", "build_uint64",
     "build_negint8", "build_negint16", "build_negint32", "build_negint64", "new_definite_bytestring", "new_indefinite_bytestring",
@@ -18,7 +18,7 @@ static const char* const builder_names[NBUILDERS] = {
     "build_stringn(7)", "new_definite_array(0)", "new_definite_array(3)", "new_indefinite_array", "new_definite_map(0)", "new_definite_map(3)",
     "new_indefinite_map", "new_tag", "new_ctrl", "new_float2", "new_float4", "new_float8", "new_null", "new_undef", "build_bool",
     "build_ctrl", "build_float2", "build_float4", "build_float8", "new_definite_array(1000)", "new_definite_map(1000)", "build_bytestring(4096)",
-    "build_stringn(300)", "build_string(long)"};
+    "build_stringn(300)", "build_string(long)", "build_string(\"\")", "build_string(1)"};
 static cbor_item_t* call_builder(int id) {
   static const char longs[] = "the quick brown fox jumps over the lazy dog \xc3\xbc\xe6\xb0\xb4\xf0\x90\x85\x91 0123456789";
   static unsigned char blob[4096];
@@ -37,6 +37,7 @@ static cbor_item_t* call_builder(int id) {
     case 36: return cbor_build_float2(1.5f); case 37: return cbor_build_float4(3.25f); case 38: return cbor_build_float8(-0.125);
     case 39: return cbor_new_definite_array(1000); case 40: return cbor_new_definite_map(1000); case 41: return cbor_build_bytestring(blob, sizeof blob);
     case 42: return cbor_build_stringn((const char*)longs, sizeof longs - 1); case 43: return cbor_build_string(longs);
+    case 44: return cbor_build_string(""); case 45: return cbor_build_string("x");
   }
   return NULL;
 }
@@ -352,6 +353,7 @@ static void fault_setup(void) {
   ta_install();
   if (!ta_selftest()) vh_die("track allocator self-test failed");
   ta_set_cap((size_t)1 << 20); /* huge declared counts take the refusal path instead of zero-filling gigabytes */
+  g_any_float_in_half = true;  /* API-built scenario trees: every item, not only C03's space */
 }
 
 static void fault_run_all(void) {
